@@ -4,24 +4,46 @@ open Conv
 let canon_date = bytes_of_string "Thu, 01 Jan 1970 00:00:00 GMT"
 
 (* rp <ctor> <status> <headers> <body> <len> <ops> <vmaj.vmin> <req headers> <head> <upgrade> [pieces] *)
+let op_of (o : string) : Model.rop =
+  let rest = String.sub o 1 (String.length o - 1) in
+  match o.[0] with
+  | 'H' -> Model.WithHeader (header_of rest)
+  | 'S' -> Model.WithStatus (n_of_string rest)
+  | 'T' -> Model.WithThreshold (n_of_string rest)
+  | 'D' -> let (d, l) = split2 ':' rest in Model.WithData (unhex d, opt_n l)
+  | _ -> failwith "op"
+
+let rp_ops (f : string array) : Model.rop list = List.map op_of (split_list ';' f.(6))
+
 let rp_build (f : string array) : Model.response =
   let ctor = f.(1) and st = n_of_string f.(2) and hs = headers_of f.(3) and body = unhex f.(4)
-  and len = opt_n f.(5) and ops = split_list ';' f.(6) in
+  and len = opt_n f.(5) in
   let r0 = match ctor with
     | "new" -> Model.new_response st hs body len
-    | "data" -> Model.from_data body
+    | "data" | "file" -> Model.from_data body
     | "string" -> Model.from_string body
     | "empty" -> Model.empty_response st
     | _ -> failwith "ctor" in
-  let op_of (o : string) : Model.rop =
-    let rest = String.sub o 1 (String.length o - 1) in
-    match o.[0] with
-    | 'H' -> Model.WithHeader (header_of rest)
-    | 'S' -> Model.WithStatus (n_of_string rest)
-    | 'T' -> Model.WithThreshold (n_of_string rest)
-    | 'D' -> let (d, l) = split2 ':' rest in Model.WithData (unhex d, opt_n l)
-    | _ -> failwith "op" in
-  Model.build r0 (List.map op_of ops)
+  Model.build r0 (rp_ops f)
+
+(* what the constructor was given, for the spec side: (declared length, headers) *)
+let rp_ctor_spec (f : string array) : Model.n option * Model.header list =
+  let body = unhex_string f.(4) in
+  match f.(1) with
+  | "new" -> (opt_n f.(5), headers_of f.(3))
+  | "data" | "file" -> (Some (n_of_int (String.length body)), [])
+  | "string" -> (Some (n_of_int (String.length body)),
+                 [ { Model.hname = bytes_of_string "Content-Type";
+                     Model.hvalue = bytes_of_string "text/plain; charset=UTF-8" } ])
+  | "empty" -> (Some (n_of_int 0), [])
+  | _ -> failwith "ctor"
+
+let obs_field (o : string array) (key : string) : string =
+  let k = key ^ "=" in
+  let n = String.length k in
+  let r = ref "" in
+  Array.iter (fun x -> if String.length x >= n && String.sub x 0 n = k then r := String.sub x n (String.length x - n)) o;
+  !r
 
 let rp_case (f : string array) : string =
   let r = rp_build f in
@@ -72,6 +94,13 @@ let spec_case (id : string) (f : string array) : string =
     | "C05" ->
         let (r, ver, rh, head, up) = rp_args c in
         verdict (Model.oracle_c05 r ver rh head up (unhex o.(0)))
+    | "C04" ->
+        let (r, _, _, head, _) = rp_args c in
+        verdict (Model.oracle_c04 r head (unhex o.(0)))
+    | "C19" ->
+        let (_, _, _, head, up) = rp_args c in
+        let (init, chs) = rp_ctor_spec c in
+        verdict (Model.oracle_c19 canon_date init chs (rp_ops c) head up (unhex o.(0)) (opt_n (obs_field o "dl")))
     | _ -> "FAIL unknown spec " ^ id
 
 let () =
